@@ -48,7 +48,7 @@ class Raw:
 GEN_DEFAULTS = {
     'N': 4, 'MaxKids': 4, 'MinHi': 0, 'AllowStar': False, 'Axes': set(), 'Types': set(),
     'FCards': set(), 'AttrNames': [], 'AttrVals': set(), 'MaxCtc': 0, 'CtcDepth': 0,
-    'CtcBinOps': set(), 'MaxLevel': 40,
+    'CtcBinOps': set(), 'CtcArith': False, 'CtcMinFeatures': 1, 'Fmt': '', 'MaxLevel': 40,
 }
 GEN_INVARIANTS = ['InvWellFormed', 'L1_KindPartition', 'L2_Preorder']
 SEM_INVARIANTS = ['L3_Count', 'L4_Core', 'L5_Atomic']
@@ -126,6 +126,14 @@ def run_generator(workdir, consts, module='FM', defaults=True, invariants=(), em
     gen, distinct = parse_stats(out)
     cases = parse_printed(out) if emit else []
     if simulate:
+        seen, uniq = set(), []
+        for c in cases:
+            key = json.dumps(c, sort_keys=True)
+            if key not in seen:
+                seen.add(key)
+                uniq.append(c)
+        cases = uniq
+    elif emit and not emit_all:
         seen, uniq = set(), []
         for c in cases:
             key = json.dumps(c, sort_keys=True)
